@@ -27,6 +27,9 @@ pub enum AdsrOp {
     SetDecay(f32),
     SetRelease(f32),
     SetSustain(f32),
+    /// set the time of phase `dst` (0 attack, 1 decay, 2 release) to the time currently configured for phase `src`
+    /// changed by the relative amount `rel` (tiny nudges: two almost-equal times used one after the other)
+    NudgeTime { dst: u8, src: u8, rel: f32 },
 }
 
 #[derive(Debug, Clone, Serialize, Deserialize, PartialEq)]
@@ -597,6 +600,16 @@ impl<'a> Sim<'a> {
             AdsrOp::SetDecay(t) => self.set_decay(*t),
             AdsrOp::SetRelease(t) => self.set_release(*t),
             AdsrOp::SetSustain(s) => self.set_sustain(*s),
+            AdsrOp::NudgeTime { dst, src, rel } => {
+                let base = [self.att, self.dec, self.rel][(*src % 3) as usize];
+                let t = (base as f64 * (1.0 + *rel as f64)) as f32;
+                self.stats.count("label.nudged_time", 1);
+                match *dst % 3 {
+                    0 => self.set_attack(t),
+                    1 => self.set_decay(t),
+                    _ => self.set_release(t),
+                }
+            }
         }
     }
 
